@@ -45,6 +45,10 @@ func runC02(ctx *Ctx) {
 			c02RealClock(ctx, i, drv)
 			return
 		}
+		if i < 10 {
+			c02Reconnect(ctx, i, drv, i >= 8)
+			return
+		}
 		cfg := genPoolCfg(rng, drv)
 		cfg.Min = nil
 		var ops []*POp
@@ -122,6 +126,46 @@ func c02RealClock(ctx *Ctx, i, drv int) {
 	}
 	coq := fmt.Sprintf("{| pc_cfg := %s; pc_ops := %s |}", cfg.coq(), cList(items))
 	ctx.Emit(Case{I: i, Kind: "real-clock-" + driverNames[drv], Coq: coq, Desc: poolDesc{cfg, done}, Monitor: mon})
+}
+
+// c02Reconnect: a client that was away connects again and sends a keep-alive at once: only the
+// time since that connect may be billed (real clock, as in production).
+func c02Reconnect(ctx *Ctx, i, drv int, legacy bool) {
+	cfg := worldCfg{Drv: drv, Price: "60000000000", IntervalNs: 60e9, Settle: true} // one credit per nanosecond
+	w := newWorld(cfg)
+	defer w.Close()
+	w.aliasAll()
+	var items []string
+	var done []*POp
+	var mon []string
+	run := func(o *POp) *POp {
+		c := *o
+		item, m := w.applyPOp(&c)
+		items = append(items, item)
+		mon = append(mon, m...)
+		done = append(done, &c)
+		return &c
+	}
+	run(&POp{Op: "connect", Node: "h1", Host: true, Kind: "geth"})
+	run(&POp{Op: "connect", Node: "c1", Kind: "geth"})
+	run(&POp{Op: "update", Node: "c1", Peers: []string{"h1"}, Block: 1, RealClk: true})
+	away := int64(100e9) // shorter than the expiry window: the host is still the client's active peer
+	run(&POp{Op: "advance", D: away})
+	run(&POp{Op: "update", Node: "h1", Block: 2, RealClk: true}) // the host kept checking in
+	c1 := store.NodeID(nodeIDOf("c1"))
+	t0 := time.Now()
+	run(&POp{Op: "connect", Node: "c1", Kind: "geth"})
+	before, _ := w.st.GetNodeBalance(c1)
+	b0 := new(big.Int).Set(&before.Credit)
+	u := run(&POp{Op: "update", Node: "c1", Peers: []string{"h1"}, Block: 3, RealClk: true})
+	since := time.Since(t0)
+	after, _ := w.st.GetNodeBalance(c1)
+	billed := new(big.Int).Sub(b0, &after.Credit)
+	if u.Result == "" && billed.Cmp(big.NewInt(int64(since+50*time.Millisecond))) > 0 {
+		mon = append(mon, fmt.Sprintf("c02-billed-before-connect: a client connected again and sent a keep-alive %d ns later; it was billed %s ns of service for its one active peer (it had been away for %d ns before connecting)", int64(since), billed, away))
+	}
+	coq := fmt.Sprintf("{| pc_cfg := %s; pc_ops := %s |}", cfg.coq(), cList(items))
+	ctx.Emit(Case{I: i, Kind: "reconnect-" + driverNames[drv], Coq: coq, Desc: poolDesc{cfg, done}, Monitor: mon})
 }
 
 // C03: balances driven across the minimum at connect and at a billing keep-alive.
